@@ -946,3 +946,22 @@ Proof.
   intros names tr C H. eapply linearizable_gen; eauto.
   intros c Hc. apply free_disciplined. apply fprogs_modes with (names := names). auto.
 Qed.
+
+(* without the guard the statement is false: a call that CHANGES the state under the READ lock (build_role_links
+   before its repair; a memoising "read" in the implementation) lets a reader return the dirty marker 0, which no
+   one-at-a-time run of any selection of the two calls returns *)
+From Coq Require Import NArith.
+Local Open Scope N_scope.
+Definition bad_w : fcall := {| fc_tag := 7; fc_mode := LR; fc_mut := true |}.
+Definition a_r : fcall := {| fc_tag := 8; fc_mode := LR; fc_mut := false |}.
+Lemma unguarded_refuted :
+  exists tr C, fexec (finit [[bad_w]; [a_r]]) tr = Some C
+    /\ In [0] (map (fun e => e_ret e) (log C))
+    /\ (forall cs, In cs [[bad_w; a_r]; [a_r; bad_w]; [a_r]; [bad_w]; []] -> ~ In [0] (snd (fseq_run [] cs))).
+Proof.
+  exists [EInvoke 0 0; EInvoke 1 0; EEnter 0; EMicro 0; EEnter 1; EMicro 1; EExit 1 0]. eexists.
+  split; [vm_compute; reflexivity | split].
+  - vm_compute. auto.
+  - intros cs H. simpl in H.
+    destruct H as [H|[H|[H|[H|[H|[]]]]]]; subst cs; vm_compute; intuition discriminate.
+Qed.
